@@ -308,6 +308,10 @@ def plans(tier):
             out.append((kind, 3, rot3))
         elif not quick:
             out.append((kind, 3, rot3[:1]))
+        if not quick:
+            # thorough: one level deeper (containers with one value per parametrised operation, see run())
+            out.append((kind, 4, [('D1', 'A', 'D2', 'D1')] if kind in ('list', 'list_empty', 'dict') else
+                        [('D1', 'A', 'D2', 'D1'), ('A', 'D1', 'A', 'D2')]))
     if quick:
         out.append(('list_empty', 3, rot3[:1]))
     return out
@@ -334,8 +338,8 @@ def run(tier, seed, pool, t0):
     try:
         for kind, depth, issuer_vectors in plans(tier):
             ops = ops_for(kind)
-            if kind in ('list', 'list_empty', 'dict') and depth >= 3:
-                # reduced alphabet at depth 3: one value per parametrised operation
+            if kind in ('list', 'list_empty', 'dict') and depth >= (3 if tier == 'quick' else 4):
+                # reduced alphabet at depth 3 (thorough: 4): one value per parametrised operation
                 seen = set()
                 red = []
                 for o in ops:
